@@ -45,16 +45,25 @@ def chi(polar, A, P):
     return out
 
 
-def convert_event(assign, iso):
-    """assign: {sym: (C id, phi units)}; iso: (C10 id, C30 id)"""
+def convert_event(assign, iso, form="scalar"):
+    """assign: {sym: (C id, phi units)}; iso: (C10 id, C30 id)
+    form: "scalar" (Python floats), "numpy" (NumPy scalars) or "series" (every coefficient a length-2 array: the case next to a second
+    set of values; the conversions act element by element, member 0 is judged by the trace, member 1 through chi)"""
     from abtem.transfer import polar2cartesian, cartesian2polar
     polar = {"C10": iso[0] * 10.0, "C30": iso[1] * 1.0e4}
     for s, (c, p) in assign.items():
         polar[s] = c * SCALE[ORDER_N[s]]
         polar[ANGLE[s]] = p * UNIT
-    ev = {"assign": {s: list(v) for s, v in assign.items()}, "iso": list(iso), "raised": False, "terms": [], "iso_ok": True, "chi_ppb": 0}
+    ev = {"assign": {s: list(v) for s, v in assign.items()}, "iso": list(iso), "form": form, "raised": False, "terms": [], "iso_ok": True, "chi_ppb": 0}
     try:
-        back = cartesian2polar(polar2cartesian(dict(polar)))
+        if form == "series":
+            other = {k: (v * 1.5 + (2.0 * UNIT if k.startswith("phi") else 0.0)) for k, v in polar.items()}
+            both = cartesian2polar(polar2cartesian({k: np.array([polar[k], other[k]]) for k in polar}))
+            member = lambda i: {k: float(np.broadcast_to(np.asarray(v, dtype=float), (2,))[i]) for k, v in both.items()}
+            back = member(0)
+        else:
+            src = {k: (np.float64(v) if form == "numpy" else v) for k, v in polar.items()}
+            back = cartesian2polar(polar2cartesian(src))
         back = {k: float(v) for k, v in back.items()}
         for s, (c, p) in assign.items():
             c2 = back[s] / SCALE[ORDER_N[s]]
@@ -67,6 +76,9 @@ def convert_event(assign, iso):
         A, P = np.meshgrid(a, ph, indexing="ij")
         x0, x1 = chi(polar, A, P), chi(back, A, P)
         ev["chi_ppb"] = ppb(float(np.abs(x1 - x0).max()) / max(float(np.abs(x0).max()), 1e-30))
+        if form == "series":
+            y0, y1 = chi(other, A, P), chi(member(1), A, P)
+            ev["chi_ppb"] = max(ev["chi_ppb"], ppb(float(np.abs(y1 - y0).max()) / max(float(np.abs(y0).max()), 1e-30)))
     except Exception as ex:
         ev["raised"] = True
         ev["exc"] = f"{type(ex).__name__}: {ex}"[:200]
@@ -106,7 +118,7 @@ def run(ctx: Ctx):
     evs, drift = [], 0
     for j, m in enumerate(cases):
         c = m["c"]
-        ev = convert_event({c["sym"]: (c["C"], c["phi"])}, iso=((j % 3) - 1, (j % 2)))
+        ev = convert_event({c["sym"]: (c["C"], c["phi"])}, iso=((j % 3) - 1, (j % 2)), form=("scalar", "scalar", "numpy", "series")[j % 4])
         evs.append(ev)
         ctx.case(json.dumps(c), nontrivial=c["C"] != 0)
         if not ev["raised"] and c["C"] != 0:
@@ -120,7 +132,7 @@ def run(ctx: Ctx):
     rng = random.Random(ctx.seed)
     for _ in range(400 if quick else 100000):
         assign = {s: (rng.choice([-2, -1, 1, 2, 0]), 12 * rng.randint(-24, 24)) for s in ORDER_N}
-        evs.append(convert_event(assign, iso=(rng.choice([-1, 0, 2]), rng.choice([0, 1]))))
+        evs.append(convert_event(assign, iso=(rng.choice([-1, 0, 2]), rng.choice([0, 1])), form=rng.choice(["scalar", "numpy", "series"])))
         ctx.case(("joint", json.dumps(assign)))
     for e in evs[:2] + evs[-1:]:
         ctx.sample(e)
@@ -129,7 +141,7 @@ def run(ctx: Ctx):
 
 def replay(ctx: Ctx, case):
     e = case["event"]
-    ev = convert_event({s: tuple(v) for s, v in e["assign"].items()}, tuple(e["iso"]))
+    ev = convert_event({s: tuple(v) for s, v in e["assign"].items()}, tuple(e["iso"]), e.get("form", "scalar"))
     ctx.case("replay")
     ctx.sample(ev)
     judge(ctx, [ev])
